@@ -57,8 +57,68 @@ def main():
                     violations.append({"what": r})
                 if len(samples) < 2 and n == 3:
                     samples.append({"capacity": cap, "ops": [list(x) for x in seq]})
+    # paths, and a second writer that goes to the wrapped store directly (another process / store object on the same
+    # data): after every step the wrapped store and the bare store answer alike -- answers and exceptions
+    from collections import OrderedDict
+
+    pops = [("store", "k0"), ("has", "k0"), ("fetch", "k0"), ("sync", ("/p", "k0")), ("sync", ("/p", "k1")), ("fetchp", "/p"), ("other_sync", ("/p", "k0")), ("other_sync", ("/p", "k1")), ("other_store", "k1")]
+
+    def outcome(f):
+        try:
+            r = f()
+            return ("ok", dict(r) if isinstance(r, OrderedDict) else r)
+        except BaseException as e:
+            return ("raised", type(e).__name__)
+
+    def run_paths(seq, cap, mk):
+        bare, inner = mk(), mk()
+        lru = LRUCacheStore(inner, num_elem=cap)
+        for i, (o, x) in enumerate(seq):
+            if o == "store":
+                a, b = outcome(lambda: lru.store_blob(x, value_of[x], None)), outcome(lambda: bare.store_blob(x, value_of[x], None))
+            elif o == "has":
+                a, b = outcome(lambda: lru.has_blob(x)), outcome(lambda: bare.has_blob(x))
+            elif o == "fetch":
+                a, b = outcome(lambda: lru.fetch_blob(x)), outcome(lambda: bare.fetch_blob(x))
+            elif o == "sync":
+                a, b = outcome(lambda: lru.sync_paths(OrderedDict([x]))), outcome(lambda: bare.sync_paths(OrderedDict([x])))
+            elif o == "fetchp":
+                a, b = outcome(lambda: lru.fetch_paths([x])), outcome(lambda: bare.fetch_paths([x]))
+            elif o == "other_sync":
+                a, b = outcome(lambda: inner.sync_paths(OrderedDict([x]))), outcome(lambda: bare.sync_paths(OrderedDict([x])))
+            else:
+                a, b = outcome(lambda: inner.store_blob(x, value_of[x], None)), outcome(lambda: bare.store_blob(x, value_of[x], None))
+            if a != b:
+                return "capacity=%d ops=%s: step %d %s(%s) wrapped -> %r, bare -> %r" % (cap, [list(map(str, s_)) for s_ in seq], i, o, x, a, b)
+        return None
+
+    LP = 4 if tier == "quick" else 5
+    for cap in (1, 10):
+        for n in range(2, LP + 1):
+            for seq in itertools.product(pops, repeat=n):
+                if not any(o in ("fetchp", "has", "fetch") for o, _ in seq[1:]):
+                    continue
+                evals += 1
+                r = run_paths(seq, cap, MemoryStore)
+                if r and len(violations) < 10:
+                    violations.append({"what": "[paths] " + r})
     tmp = tempfile.mkdtemp(prefix="dds_b_lru_")
     try:
+        c2 = [0]
+
+        def mk_local2():
+            c2[0] += 1
+            return LocalFileStore(tmp + "/pi%d" % c2[0], tmp + "/pd%d" % c2[0])
+
+        for seq in itertools.product(pops, repeat=3):
+            if not any(o in ("fetchp", "has", "fetch") for o, _ in seq[1:]):
+                continue
+            evals += 1
+            r = run_paths(seq, 2, mk_local2)
+            if r and len(violations) < 10:
+                violations.append({"what": "[paths, local store] " + r})
+            for d_ in list(__import__("os").listdir(tmp)):
+                shutil.rmtree(tmp + "/" + d_, ignore_errors=True)
         c = [0]
 
         def mk_local():
@@ -74,7 +134,7 @@ def main():
     finally:
         shutil.rmtree(tmp, ignore_errors=True)
     print(json.dumps({
-        "scope": "all operation sequences of length <= %d over 2 keys x 3 operations x 4 capacities (MemoryStore), length 3 x 2 capacities (LocalFileStore)" % L,
+        "scope": "all operation sequences of length <= %d over 2 keys x 3 operations x 4 capacities (MemoryStore), length 3 x 2 capacities (LocalFileStore); all sequences of length <= %d over 9 blob / path operations incl. a second writer on the wrapped store (MemoryStore, 2 capacities) and of length 3 on LocalFileStore" % (L, LP),
         "evaluations": evals, "distinct_nontrivial": distinct, "exhaustive": True,
         "rule": "one case per (capacity, operation sequence); distinct = sequences of maximal length",
         "samples": samples, "violations": violations, "known_hits": [],
